@@ -100,6 +100,11 @@ type handedOut struct {
 }
 
 func bodyTransports(r *sim.Run) {
+	if !fclient.VerifInternals {
+		r.Probe("degraded_transport_workload_skipped")
+		r.Logf("transport-cache workload skipped: in-package accessors unavailable on this tree")
+		return
+	}
 	t := r.T
 	s := sim.NewSched(r)
 	z := newZone()
